@@ -10,7 +10,6 @@ package main
 
 import (
 	"fmt"
-	"os"
 	"reflect"
 	"sort"
 	"strconv"
@@ -378,9 +377,6 @@ func runProgram(p program) *vlib.Outcome {
 	if err := e.RegisterString("t", p.main); err != nil {
 		o.Class = p.family + "/parse-error"
 		o.Counters["not_a_program_"+p.family] = 1
-		if os.Getenv("C18_SHOW_PARSE") != "" {
-			fmt.Fprintf(os.Stderr, "PARSE %s: %v\n", p.key, err)
-		}
 		return o // not a program of the language: nothing rendered, nothing to check
 	}
 	ctx := mkContext()
